@@ -160,6 +160,12 @@ double Integrate_Gauss_Legendre(std::vector<double> function_values, std::vector
 		std::cerr << "libphysica::Integrate_Gauss_Legendre(): function_values and roots_and_weights must have the same size." << std::endl;
 		std::exit(EXIT_FAILURE);
 	}
+	for(unsigned int i = 0; i < roots_and_weights.size(); i++)
+		if(roots_and_weights[i].size() != 2)
+		{
+			std::cerr << "libphysica::Integrate_Gauss_Legendre(): Every entry of roots_and_weights must consist of a root and a weight." << std::endl;
+			std::exit(EXIT_FAILURE);
+		}
 	double integral = 0.0;
 	for(unsigned int i = 0; i < function_values.size(); i++)
 		integral += function_values[i] * roots_and_weights[i][1];
